@@ -106,6 +106,8 @@ def judge(ctx, case, rec, leg):
     shape, path, via_apply, N = case["shape"], case["path"], case["via_apply"], case["N"]
     has_apply = bool(via_apply) or ("apply" in path)
     base = {"shape": shape, "ctx_path": "/".join(path) or "-", "via_apply": via_apply, "has_apply": has_apply, "N": N, "leg": leg}
+    if case.get("aged"):
+        base["after_failed_evaluations"] = case["aged"]
     key = "%s|%s|%s" % (shape, "/".join(path), via_apply)
     if rec is None or "steps" not in rec:
         if rec and "abort" in rec:
@@ -116,7 +118,9 @@ def judge(ctx, case, rec, leg):
         else:
             ctx.inconclusive_cases += 1
         return
-    steps = rec["steps"]
+    steps = rec["steps"][case.get("aged", 0):]
+    if case.get("aged"):
+        ctx.count("loops_on_aged_interpreters")
     for s in steps[:-1]:
         k, v = core.outcome(s)
         if k != "ok":
@@ -183,6 +187,11 @@ def run(tier, seed):
             for path in [(), ("cond-arrow", "let"), ("when", "case-clause"), ("and", "or")]:
                 if shape != "internal-proc":
                     cases.append({"shape": shape, "path": list(path), "via_apply": False, "N": 200000, "only": "release"})
+    # aged interpreters: the same loops after thousands of failed evaluations on the same interpreter (and thread)
+    from . import gen_text
+    for shape in SHAPES:
+        if shape != "internal-proc":
+            cases.append({"shape": shape, "path": list(rng.choice(paths)), "via_apply": False, "N": bigN, "aged": rng.choice([4000, 8000])})
     cases = core.mine(cases)
     ctx.rule = ("loops = tail-context path (every single context, %s compositions of two%s) x %d loop shapes x direct/apply call x N in {40, %d}; "
                 "stack depth and live heap sampled at every iteration by a native probe. distinct_nontrivial = distinct (shape, context path, call style) "
@@ -198,6 +207,8 @@ def run(tier, seed):
                 continue
             defs, call = make_loop(c["shape"], c["path"], c["via_apply"])
             steps = [{"src": d} for d in defs] + [{"src": call.replace("{N}", str(c["N"]))}]
+            if c.get("aged"):
+                steps = [{"src": t} for t in gen_text.aging(rng, c["aged"])] + steps
             jobs.append({"id": "c02", "interps": [{"stdlib": True}], "steps": steps, "fuel": 200 * c["N"] + 20000, "stack_limit": 200 << 20})
             cs.append(c)
         recs = core.run_jobs(jobs, leg, timeout=900 if tier == "quick" else 3000, tag="c02", env_extra={"RVDRIVE_STEP_TIMEOUT_MS": "120000"})
